@@ -740,3 +740,16 @@ Proof.
 Qed.
 
 End WithApps.
+
+(* a concrete run (non-vacuity of lone_station_claims): station 1 (default parameters: 19200 baud, slot
+   100 bit, token-lost time-out (6 + 2*1) * 100 bit = 41666 us), listening since time 0, polled at
+   10 ms, 20 ms and 45 ms on a silent bus *)
+Definition ex_lone_station : res fdl :=
+  let* r := ring_new 1 in
+  Ok (mkFdl default_params r ConnOnline (GapDoPoll 1) (ListenToken None 0) (Some 0) 0 0 0 0).
+
+Definition ex_lone_trace : res (list (state_kind * option bytes * nat)) :=
+  let* f := ex_lone_station in
+  let* steps := run_polls unit_app_ops f [tt] (map silent_in [10000; 20000; 45000]) in
+  Ok (ghost_trace 0 steps).
+
